@@ -722,3 +722,65 @@ func init() {
 		}
 	})
 }
+
+func init() {
+	// a record write that FAILS while the process lives on (disk full, quota, file-size limit): once on the re-run mark
+	// written before the body, once on the final record.  "The persisted build state stays loadable", and what was not
+	// recorded is executed again.  To the model each is a build cut short at that save.
+	engScenarios = append(engScenarios, func(r *engRun) {
+		s := r.mkSource("")
+		g := r.mkTarget("", nil, []int{s}, 1, false, 0)
+		top := r.mkTarget("", []int{g.ID}, nil, 1, false, 0)
+		r.emitProj("scenario: a record write that fails while the process lives on")
+		r.build(top.ID, "build", nil, "", "scenario")
+		// the saves of g's record in one process: the refresh at load time, the re-run mark before the body, the final record
+		for nth := 1; nth <= 3; nth++ {
+			_, r.execPos = readLines(filepath.Join(r.root, ".exec.log"), 0)
+			r.editSource(s)
+			r.extraEnv = []string{"VERIF_WRITEFAULT=" + r.p.label(g.ID) + "|" + strconv.Itoa(nth)}
+			rep, _, hung := r.child("build", r.p.label(top.ID), nil, "")
+			r.extraEnv = nil
+			if hung || rep == nil {
+				r.oracle("C03 build in which write number %d of the record of %s fails: no report (hung=%v)", nth, r.p.label(g.ID), hung)
+				return
+			}
+			armed := false
+			for _, n := range rep.Notes {
+				armed = armed || strings.HasPrefix(n, "write-fault-armed:")
+			}
+			if !armed {
+				// fewer saves than that, or no file-size limits on this machine: nothing was injected, and nothing is claimed
+				// about this build
+				return
+			}
+			ranLines, _ := readLines(filepath.Join(r.root, ".exec.log"), r.execPos)
+			var ran []int
+			gRan := false
+			for _, l := range ranLines {
+				ran = append(ran, r.labelIDAny(l))
+				gRan = gRan || r.labelIDAny(l) == g.ID
+			}
+			what := "re-run mark"
+			switch {
+			case rep.LoadErr != "":
+				what = "record refreshed at load time"
+			case gRan:
+				what = "final record"
+			}
+			r.loadAfter(fmt.Sprintf("a build in which the write of the %s of %s failed (file-size limit; the process went on)", what, r.p.label(g.ID)))
+			if rep.LoadErr == "" {
+				if rep.RunErr == "" {
+					r.oracle("C03 a build in which the %s of %s could not be written reported success", what, r.p.label(g.ID))
+				}
+				recs, _ := r.records()
+				var started, premarked []int
+				if gRan {
+					started, premarked = []int{g.ID}, []int{g.ID}
+				}
+				r.h.Ops = append(r.h.Ops, mOp{Op: "build", Label: top.ID, Mode: "build", Note: "the write of the " + what + " failed",
+					Obs: &mObs{Kind: "crash", Ran: ran, Started: started, Recorded: []int{s}, Premarked: premarked, Recs: recs, Events: map[string][]string{}}})
+			}
+			r.build(top.ID, "build", nil, "", "recovery")
+		}
+	})
+}
